@@ -438,7 +438,7 @@ func (p *Path) foreignGlobal(g *ssa.Global) Value {
 	case "io.EOF", "io.ErrUnexpectedEOF", "net/http.ErrBodyNotAllowed", "context.Canceled", "os.ErrNotExist", "io/fs.ErrNotExist":
 		return p.sentinelErr(name)
 	case "net/http.NoBody":
-		return p.mkReader(StrV{})
+		return p.mkReader(StrV{}).V
 	case "os.Stderr", "os.Stdout":
 		return PtrV{Obj: p.newObj(nil, StructV{}), Type: g.Type().(*types.Pointer).Elem()}
 	}
